@@ -100,6 +100,8 @@ def gen_case(rng):
                 now = now + rng.choice([1, 2, 512, 1024, 1024, 2048, 5000, 100000])
             else:
                 now = max(now - rng.choice([1, 2, 1024, 5000]), 0)
+            # stay where ceil(1000*diff) fits an int (the conversion is undefined beyond; see META note)
+            now = max(now, max(due + [0]) - 2100000000)
             ops.append("t:%d" % now)
         elif r < 0.76:
             ops.append("k")
